@@ -709,5 +709,5 @@ func TestEveryOpaqueToken(t *testing.T) {
 
 func TestReplay(t *testing.T) {
 	r := harness.Decode(run)
-	harness.ReplayAll(t, map[string]harness.Runner{"streams": r, "opaque-table": r})
+	harness.ReplayAll(t, map[string]harness.Runner{"streams": r, "opaque-table": r, "fuzz": r})
 }
